@@ -1,11 +1,44 @@
 (* Properties/C12.v — statements only.  C12: the front end accepts Lua 5.4
    syntax and decodes it faithfully.
-   Models: GV.Front.Token/Parse (mirror of parsing/parser.go, ops/ops.go,
-   ast/binopexp.go), GV.Front.Print (printer with the parentheses the grammar
-   requires; denotation of spellings). *)
-From Coq Require Import NArith List.
-From GV Require Import Front.Token Front.Parse Front.Print Front.Proofs.
+   Models: GV.Front.Token/Parse (mirror of parsing/parser.go Exp/ShortExp/
+   PrefixExp/Args/ExpList/TableConstructor/Field, ops/ops.go, ast/binopexp.go),
+   GV.Front.Print (printer inserting exactly the parentheses the precedence
+   table requires; denotation [norm] of spellings), GV.Front.Lex (literal
+   denotations).  "evals F R" = F f = R for every sufficiently large fuel f. *)
+From Coq Require Import NArith ZArith List.
+From GV Require Import Front.Token Front.Parse Front.Print Front.Proofs Front.RoundTrip Front.RoundTripMain Front.Lex Front.LexProofs.
 Import ListNotations.
+
+(* parse ∘ print: for EVERY expression tree over all 21 binary and 4 unary
+   operators, calls, method calls, indexing, table constructors, with any
+   redundant parentheses / alternative spellings, the parser returns the
+   tree's denotation.  This is precedence and associativity of every operator
+   pair in every nesting at once. *)
+Theorem C12_parse_print :
+  forall e, evals (fun fuel => parse_fuel fuel (print e)) (Ok (norm e)).
+Proof. exact parse_print_evals. Qed.
+Print Assumptions C12_parse_print.
+
+(* with the minimal parentheses only: the tree itself comes back *)
+Theorem C12_parse_print_min :
+  forall e, plain e = true -> evals (fun fuel => parse_fuel fuel (print e)) (Ok e).
+Proof. exact parse_print_min_evals. Qed.
+Print Assumptions C12_parse_print_min.
+
+(* the hypothesis is satisfiable, on a tree that needs parentheses *)
+Example C12_plain_example :
+  plain (EBin OpMul (EBin OpAdd (EName 1) (EName 2)) (EUn OpNeg (EBin OpPow (EName 3) (EUn OpNeg (EName 1))))) = true
+  /\ parse (print (EBin OpMul (EBin OpAdd (EName 1) (EName 2)) (EUn OpNeg (EBin OpPow (EName 3) (EUn OpNeg (EName 1))))))
+     = Ok (EBin OpMul (EBin OpAdd (EName 1) (EName 2)) (EUn OpNeg (EBin OpPow (EName 3) (EUn OpNeg (EName 1))))).
+Proof. split; vm_compute; reflexivity. Qed.
+
+(* error position: a token that cannot continue an expression, after a
+   complete expression, is the token at which the error is reported *)
+Theorem C12_error_at_first_extra_token :
+  forall e t junk, suffix_tok t = false -> binop_of t = None ->
+  evals (fun fuel => parse_fuel fuel (print e ++ t :: junk)) (Err (t :: junk)).
+Proof. exact error_at_extra_token_evals. Qed.
+Print Assumptions C12_error_at_first_extra_token.
 
 (* ast.NewBinOp's same-precedence list merging loses nothing: the merged node
    denotes the left-nested binary tree (what the harness compares). *)
@@ -13,3 +46,46 @@ Theorem C12_unflatten_new_binop : forall l op r,
   unflatten (new_binop l op r) = EBin op (unflatten l) (unflatten r).
 Proof. exact unflatten_new_binop. Qed.
 Print Assumptions C12_unflatten_new_binop.
+
+(* multi-valued expressions: parentheses are kept around calls … *)
+Theorem C12_paren_kept_call : forall f m b args,
+  norm (EParen (ECall f m b args)) = EParen (norm (ECall f m b args)).
+Proof. exact paren_kept_call. Qed.
+Print Assumptions C12_paren_kept_call.
+
+(* … dropped around single-valued expressions … *)
+Theorem C12_paren_dropped_single_valued : forall e,
+  multi_valued (norm e) = false -> norm (EParen e) = norm e.
+Proof. exact paren_dropped_single_valued. Qed.
+Print Assumptions C12_paren_dropped_single_valued.
+
+(* … and, of the code as it stands, also dropped around '...' (defect
+   C12-paren-vararg; replayed on the Go code by the check) *)
+Theorem C12_paren_only_truncates_multivalue_refuted :
+  exists e, multi_valued (norm e) = true /\ norm (EParen e) = norm e.
+Proof. exact paren_only_truncates_multivalue_refuted. Qed.
+Print Assumptions C12_paren_only_truncates_multivalue_refuted.
+
+Theorem C12_paren_only_truncates_multivalue_partial : forall e,
+  norm e <> EEtc -> (norm (EParen e) = norm e <-> multi_valued (norm e) = false).
+Proof. exact paren_only_truncates_multivalue_partial. Qed.
+Print Assumptions C12_paren_only_truncates_multivalue_partial.
+
+(* ---- numerals (manual §3.1 vs ast.NewNumber, integer branch) *)
+(* hexadecimal integer numerals of any length wrap around modulo 2^64 *)
+Theorem C12_numeral_denotation_hex : forall ds, go_hex ds = s_hex ds.
+Proof. exact go_hex_correct. Qed.
+Print Assumptions C12_numeral_denotation_hex.
+
+(* decimal integer numerals: an integer if it fits, else a float — true of the
+   code below 2^63 and from 2^64 on … *)
+Theorem C12_numeral_denotation_dec_partial : forall ds, digits_ok 10 ds ->
+  let n := digits_val 10 ds 0 in (n < 2 ^ 63 \/ 2 ^ 64 <= n)%Z -> go_dec ds = s_dec ds.
+Proof. exact go_dec_partial. Qed.
+Print Assumptions C12_numeral_denotation_dec_partial.
+
+(* … and false in between (defect C12-decimal-overflow-integer, witness
+   9223372036854775808; replayed on the Go code by the check) *)
+Theorem C12_numeral_denotation_dec_refuted : exists ds, digits_ok 10 ds /\ go_dec ds <> s_dec ds.
+Proof. exact go_dec_refuted. Qed.
+Print Assumptions C12_numeral_denotation_dec_refuted.
